@@ -20,3 +20,12 @@ def all_cases(tier, groups=None):
         import cat
         out = [c for c in out if cat.CAT[c[0]].group in groups]
     return out
+
+def load_all():
+    """import every catalogue module (registers the entries in cat.CAT) without generating cases: needed by replay"""
+    for m in MODULES:
+        try:
+            importlib.import_module(m)
+        except ModuleNotFoundError as e:
+            if e.name != m:
+                raise
